@@ -72,6 +72,7 @@ type FuncContract struct {
 	Inline   bool
 	Opts     map[string]bool
 	Serves   []string
+	ExitSets []*GhostSet
 	Where    string
 	File     *SpecFile
 }
@@ -118,7 +119,7 @@ var clauseKeywords = map[string]bool{
 	"package": true, "import": true, "pure": true, "ghost": true, "axiom": true, "lemma": true,
 	"func": true, "iface": true, "extern": true, "callback": true, "funcfield": true,
 	"requires": true, "ensures": true, "modifies": true, "loop": true, "call": true, "let": true,
-	"trusted": true, "inline": true, "opt": true, "serves": true,
+	"trusted": true, "inline": true, "opt": true, "serves": true, "exit": true,
 }
 
 var labelRe = regexp.MustCompile(`^\[([^\]]*)\]\s*`)
@@ -349,6 +350,16 @@ func (sp *Specs) loadFile(path, pkgPath string) error {
 				default:
 					return fail(fmt.Errorf("loop: unknown %q", parts[1]))
 				}
+			case "exit":
+				// exit set g(args) = e   (ghost code executed at every return, before the postconditions)
+				if !strings.HasPrefix(rest, "set ") {
+					return fail(fmt.Errorf("exit set g(args) = e"))
+				}
+				gs, err := parseGhostSet(strings.TrimSpace(rest[4:]))
+				if err != nil {
+					return fail(err)
+				}
+				cur.ExitSets = append(cur.ExitSets, gs)
 			case "call":
 				// call <pattern> requires [l] e | set g(args) = e | assume [l] e
 				fields := strings.SplitN(rest, " ", 3)
@@ -381,31 +392,9 @@ func (sp *Specs) loadFile(path, pkgPath string) error {
 					cs.Assumes = append(cs.Assumes, c)
 					sp.Scan = append(sp.Scan, fmt.Sprintf("assume after call %s in %s: %s (%s)", pat, cur.Name, c.Src, where))
 				case "set":
-					i := strings.Index(fields[2], " = ")
-					if i < 0 {
-						return fail(fmt.Errorf("call p set g(args) = e"))
-					}
-					lhs, err := ParseExpr(strings.TrimSpace(fields[2][:i]))
+					gs, err := parseGhostSet(fields[2])
 					if err != nil {
 						return fail(err)
-					}
-					rhs, err := ParseExpr(strings.TrimSpace(fields[2][i+3:]))
-					if err != nil {
-						return fail(err)
-					}
-					gs := &GhostSet{Val: rhs, Src: fields[2]}
-					switch l := lhs.(type) {
-					case *EIdent:
-						gs.Name = l.Name
-					case *ECall:
-						id, ok := l.Fun.(*EIdent)
-						if !ok {
-							return fail(fmt.Errorf("bad ghost set lhs"))
-						}
-						gs.Name = id.Name
-						gs.Args = l.Args
-					default:
-						return fail(fmt.Errorf("bad ghost set lhs"))
 					}
 					cs.Sets = append(cs.Sets, gs)
 				default:
@@ -561,4 +550,34 @@ func splitTop(s string, sep byte) []string {
 	}
 	out = append(out, s[last:])
 	return out
+}
+
+func parseGhostSet(src string) (*GhostSet, error) {
+	i := strings.Index(src, " = ")
+	if i < 0 {
+		return nil, fmt.Errorf("set g(args) = e")
+	}
+	lhs, err := ParseExpr(strings.TrimSpace(src[:i]))
+	if err != nil {
+		return nil, err
+	}
+	rhs, err := ParseExpr(strings.TrimSpace(src[i+3:]))
+	if err != nil {
+		return nil, err
+	}
+	gs := &GhostSet{Val: rhs, Src: src}
+	switch l := lhs.(type) {
+	case *EIdent:
+		gs.Name = l.Name
+	case *ECall:
+		id, ok := l.Fun.(*EIdent)
+		if !ok {
+			return nil, fmt.Errorf("bad ghost set lhs")
+		}
+		gs.Name = id.Name
+		gs.Args = l.Args
+	default:
+		return nil, fmt.Errorf("bad ghost set lhs")
+	}
+	return gs, nil
 }
